@@ -68,7 +68,12 @@ def _cases(tier, rng):
         elif r < 0.7:
             sp = rng.choice([['roll', 3, 2], ['roll', 2, 2], ['roll', 3, 1], ['roll', 2, 3], ['split', ['floordiv', 3]],
                              ['group_by', ['mod', 2]],
-                             ['time_split', {'time': ['id'], 'active': 4, 'inactive': 2, 'closing': None, 'include': True}]])
+                             ['time_split', {'time': ['id'], 'active': 4, 'inactive': 2, 'closing': None, 'include': True}],
+                             # every combination of timeouts (also 0: every item closes the window before it), closing mappers (the
+                             # first item of a key can be a closing item), inclusive or not; timestamps may repeat
+                             ['time_split', {'time': ['id'], 'active': rng.choice([None, 2, 3, 5, 0]), 'inactive': rng.choice([None, 1, 2, 3, 0]),
+                                             'closing': rng.choice([None, ['mod_eq', 4, 3], ['is_even'], ['mod_eq', 3, 0]]),
+                                             'include': rng.random() < 0.5}]])
             if sp[0] in ('split', 'time_split'):
                 items = muxgen.gen_items(rng, kind='mono')
             yield {'kind': 'mux', 'term': [sp + [flat]], 'items': items}
